@@ -12,7 +12,7 @@
 //!   chrono's range are left unspecified (oracle skipped, the exact correspondence still runs).
 use crate::cases::Case;
 use crate::types::*;
-use crate::{col_typed, split_possible};
+use crate::col_typed;
 use snel_harness::out::Stream;
 use std::collections::BTreeMap;
 
@@ -364,7 +364,6 @@ fn check_table(case: &Case, flows: &Flows, t: &Table) -> Option<Result<(), Misma
             }
         }
     }
-    let split = split_possible(p, flows);
     // expected groups
     let mut exp: BTreeMap<EKey, Vec<&Vec<Sc>>> = BTreeMap::new();
     for r in rows {
@@ -388,7 +387,7 @@ fn check_table(case: &Case, flows: &Flows, t: &Table) -> Option<Result<(), Misma
             (None, why) => {
                 // a group the code never reports
                 return Some(Err(Mismatch {
-                    class: if split { "columnar-key-split" } else { why.unwrap_or("-") },
+                    class: why.unwrap_or("-"),
                     detail: format!("group {:?} is not reported", k),
                 }));
             }
@@ -416,7 +415,7 @@ fn check_table(case: &Case, flows: &Flows, t: &Table) -> Option<Result<(), Misma
                     (true, Some(g)) => g,
                     _ => {
                         return Some(Err(Mismatch {
-                            class: if split { "columnar-key-split" } else { why.unwrap_or("-") },
+                            class: why.unwrap_or("-"),
                             detail: format!("group {:?} missing from the table", ek),
                         }))
                     }
@@ -432,9 +431,6 @@ fn check_table(case: &Case, flows: &Flows, t: &Table) -> Option<Result<(), Misma
                 None => {}
                 Some(Ok(())) => {}
                 Some(Err(mut mm)) => {
-                    if split {
-                        mm.class = "columnar-key-split";
-                    }
                     mm.detail = format!("group {:?}: {}", ek, mm.detail);
                     return Some(Err(mm));
                 }
@@ -446,7 +442,7 @@ fn check_table(case: &Case, flows: &Flows, t: &Table) -> Option<Result<(), Misma
     let expected_keys = by_impl.len();
     if t.len() > expected_keys {
         return Some(Err(Mismatch {
-            class: if split { "columnar-key-split" } else { "-" },
+            class: "-",
             detail: format!("table has {} groups, reference {}", t.len(), expected_keys),
         }));
     }
@@ -497,9 +493,7 @@ pub fn check(s: &mut Stream, i: u64, case: &Case, parts: &[Flows; 3], tables: &[
             s.oracle_ok();
         } else {
             let p = &case.plan;
-            let class = if parts.iter().any(|f| split_possible(p, f)) {
-                "columnar-key-split"
-            } else {
+            let class = {
                 let mut c = "-";
                 for m in &p.metrics {
                     let Some(f) = m.field() else { continue };
